@@ -6,6 +6,45 @@ import os
 HERE = os.path.dirname(os.path.dirname(os.path.abspath(__file__)))
 
 CLAIMS = {
+    "C11": dict(
+        text="Static writer/reader agreement for the LSH tables: writer and reader hash with the same function, the "
+             "same table_to_plane[k] and the same bucket table over the same key set; on the abstract traces of "
+             "all LSH configurations the planes are written only by _initialize, which is called only from fit, "
+             "drawn from the bandit generator with shape (columns, n_dimensions); index offset of partial_fit rows "
+             "read before the append, passed and applied; candidates united over tables and de-duplicated, empty "
+             "set -> empty-neighbourhood path; contexts enter the hash only through the sign of np.dot(contexts, "
+             "plane) compared with zero (scale invariance). Decides the collision-set structure, not numerical "
+             "injectivity of the hash code.",
+        note="Trusted: sign of np.dot is scale invariant for positive factors; float64 exactness of the hash code "
+             "for the n_dimensions in use; stale entries are C07's obligation.",
+        technique="writer/reader sibling agreement (AST after local inlining) + who-writes / who-calls facts from "
+                  "abstract-interpretation traces + taint of the hash function's parameter",
+        ref="DESIGN.md section 3, C11"),
+    "C12": dict(
+        text="Static writer/reader agreement of the cell key: Clusters trains lp_list[c] on the rows whose "
+             "labels_ (of the estimator fitted on the stored contexts in the same call) equal c, with one selector "
+             "for decisions/rewards/contexts, and routes a query by kmeans.predict(contexts)[index] of the same "
+             "estimator to the same list position; the estimator is fitted only by _fit_operation (traces). "
+             "TreeBandit files rewards under [arm][leaf] with leaf ids from the arm's own tree and one arm mask, "
+             "fits a tree only while its store is empty, and the reader looks up [arm][apply(row)] of the same "
+             "tree and trains the leaf policy on exactly that array; unobserved arms keep the neutral 0.",
+        note="Trusted: KMeans.labels_/predict and DecisionTreeRegressor.apply semantics; numbers are not decided.",
+        technique="writer/reader agreement by AST comparison after local inlining + who-writes facts from "
+                  "abstract-interpretation traces",
+        ref="DESIGN.md section 3, C12"),
+    "C13": dict(
+        text="Static key-discipline and completeness analysis of warm start: each _copy_arms store is keyed by the "
+             "cold arm, reads the warm arm and deep-copies; the copied or re-derived fields equal the policy's "
+             "per-arm learned state (accumulator/derived classification computed from the traces, minus value-dead "
+             "fields); the mapping iterates cold_arms, takes candidates from trained_arms only, chooses the argmin "
+             "and applies the inclusive threshold; cold/trained definitions, compute-then-copy-then-mark order, "
+             "warm flag cleared only by a non-partial fit; on the traces every store of warm_start is keyed by the "
+             "cold arm or is a whole-dictionary re-derivation. Decides which arms can change and what they "
+             "receive; distances and quantiles as numbers are not decided.",
+        note="Trusted: np.quantile monotone in q; cosine distance symmetry; externals table.",
+        technique="AST key-discipline rules + completeness of effect summaries against the accumulator/derived "
+                  "classification from abstract-interpretation traces",
+        ref="DESIGN.md section 3, C13"),
     "C09": dict(
         text="Static non-interference analysis of the is_predict flag: the six context-free predict methods are "
              "argmax o predict_expectations and utils.argmax is the first-maximum idiom; on the abstract traces of "
